@@ -45,16 +45,50 @@ func runC20(p *core.Prog, r *core.Result) {
 		r.Unk("R20.2", "dawn.(*cache).once#params", p.Pos(once.Pos()), "cannot identify the key and callable parameters")
 		return
 	}
-	li := p.Locks(once)
 	class := core.ClassOf("", "cache", "m")
-	var calls []*ssa.Call
-	for _, c := range core.Calls(once) {
-		if core.IsCallTo(c, pkgStar, "Call") {
-			if cc, ok := c.(*ssa.Call); ok && core.Unwrap(cc.Call.Args[1]) == ssa.Value(fnP) {
-				calls = append(calls, cc)
+	callsOf := func(host *ssa.Function, fnP *ssa.Parameter) []*ssa.Call {
+		var calls []*ssa.Call
+		for _, c := range core.Calls(host) {
+			if core.IsCallTo(c, pkgStar, "Call") {
+				if cc, ok := c.(*ssa.Call); ok && core.Unwrap(cc.Call.Args[1]) == ssa.Value(fnP) {
+					calls = append(calls, cc)
+				}
+			}
+		}
+		return calls
+	}
+	// the slow path (write lock, re-check, call, store) lives in once or in a helper that once hands the key and the
+	// callable to
+	host, onceKeyP := once, keyP
+	var hostCall *ssa.Call
+	calls := callsOf(once, fnP)
+	if len(calls) == 0 {
+		for _, c := range core.Calls(once) {
+			hc, isCall := c.(*ssa.Call)
+			h := core.Callee(c)
+			if !isCall || h == nil || h.Pkg != once.Pkg || h.Blocks == nil {
+				continue
+			}
+			var hk, hf *ssa.Parameter
+			for i, a := range hc.Call.Args {
+				if i >= len(h.Params) {
+					break
+				}
+				if a == ssa.Value(keyP) {
+					hk = h.Params[i]
+				}
+				if core.Unwrap(a) == ssa.Value(fnP) {
+					hf = h.Params[i]
+				}
+			}
+			if hk != nil && hf != nil && len(callsOf(h, hf)) > 0 {
+				host, keyP, fnP, hostCall = h, hk, hf, hc
+				calls = callsOf(h, hf)
+				break
 			}
 		}
 	}
+	li := p.Locks(host)
 	r.Floor("R20.2", len(calls), 1, "invocations of the callable in once")
 	// lookups of entries[key] in once
 	isEntriesLookup := func(v ssa.Value, key ssa.Value) *ssa.Lookup {
@@ -68,7 +102,7 @@ func runC20(p *core.Prog, r *core.Result) {
 		return lk
 	}
 	var lookups []*ssa.Lookup
-	core.Instrs(once, func(in ssa.Instruction) {
+	core.Instrs(host, func(in ssa.Instruction) {
 		if v, ok := in.(ssa.Value); ok {
 			if lk := isEntriesLookup(v, keyP); lk != nil {
 				lookups = append(lookups, lk)
@@ -95,7 +129,7 @@ func runC20(p *core.Prog, r *core.Result) {
 		return false
 	}
 	var updates []*ssa.MapUpdate
-	core.Instrs(once, func(in ssa.Instruction) {
+	core.Instrs(host, func(in ssa.Instruction) {
 		if mu, ok := in.(*ssa.MapUpdate); ok && core.LoadOfField(mu.Map, pkgRoot, "cache", "entries") {
 			updates = append(updates, mu)
 		}
@@ -154,6 +188,16 @@ func runC20(p *core.Prog, r *core.Result) {
 		_, isCall := t.(*ssa.Call)
 		r.Check(ok && isCall && mu.Key == ssa.Value(keyP), "R20.3", "dawn.(*cache).once#update-source", p.InstrPos(mu), "the only map update stores a call result under the key parameter", "entries is updated with something other than the callable's result for the key")
 	}
+	for _, fn := range p.ModuleFuncs() {
+		if fn == host {
+			continue
+		}
+		core.Instrs(fn, func(in ssa.Instruction) {
+			if mu, ok := in.(*ssa.MapUpdate); ok && core.LoadOfField(mu.Map, pkgRoot, "cache", "entries") {
+				r.Bad("R20.3", fname(fn)+"#update-elsewhere", p.InstrPos(mu), "entries is updated outside the slow path of once: a value can be replaced after it was handed out")
+			}
+		})
+	}
 	// R20.3b no update reachable on the error edge: covered by the nil-edge fact above for all updates
 	for _, mu := range updates {
 		onNil := false
@@ -192,7 +236,28 @@ func runC20(p *core.Prog, r *core.Result) {
 		}
 	}
 	nret := 0
+	type retIn struct {
+		ret *ssa.Return
+		key *ssa.Parameter
+	}
+	var rets []retIn
 	for _, ret := range core.ReturnsOf(once) {
+		vals := core.RetVals(ret)
+		// `return c.helper(...)`: the helper's returns stand for this one
+		if len(vals) == 2 && hostCall != nil {
+			t0, ok0 := okExtract(vals[0], 0)
+			t1, ok1 := okExtract(vals[1], 1)
+			if ok0 && ok1 && t0 == ssa.Value(hostCall) && t1 == ssa.Value(hostCall) {
+				for _, hr := range core.ReturnsOf(host) {
+					rets = append(rets, retIn{hr, keyP})
+				}
+				continue
+			}
+		}
+		rets = append(rets, retIn{ret, onceKeyP})
+	}
+	for _, ri := range rets {
+		ret, keyP := ri.ret, ri.key
 		vals := core.RetVals(ret)
 		if len(vals) != 2 || !core.IsNilConst(vals[1]) {
 			continue // error return
